@@ -1,7 +1,7 @@
 package main
 
-// Oracle families 1 (entry points), 2 (receiver history), 3 (stream composition), 4 (fragmentation).
-// Families 5-7 (truncation, corruption, writer failure) are in faults.go.
+// Oracle families 1 (entry points), 2 (receiver history), 3 (stream composition).
+// Family 4 is in fragmentation.go, families 5-7 in faults.go.
 
 import (
 	"bufio"
@@ -13,279 +13,7 @@ import (
 	"strings"
 
 	"github.com/tuneinsight/lattigo/v6/utils/buffer"
-
-	"verif/engine"
 )
-
-// lc is what a leaf knows.
-type lc struct {
-	c    *engine.Chooser
-	cat  []*entry
-	e    *entry
-	vi   int
-	o    *cached // original object + reference encodings
-	name string  // scenario name (for Outcome)
-	seed uint64
-}
-
-// failResult reports a fatal error or panic observed by the helper process.
-func (x *lc) failResult(family string, r result, what string) {
-	switch {
-	case r.Fatal != "":
-		x.c.Fail(sig(family, r.FatalSite, "fatal:"+r.Fatal), "%s %s: the process was killed by an unrecoverable runtime error (%s) in %s", x.e.name, what, r.Fatal, r.FatalSite)
-	case r.Panic != "":
-		k := "panic:" + r.PanicKind
-		if r.PanicKind == "unchecked-length" {
-			k = "unchecked-length"
-		}
-		x.c.Fail(sig(family, r.Site, k), "%s %s: panic in %s: %s", x.e.name, what, r.Site, r.Panic)
-	}
-}
-
-func sig(family, subject, kind string) string { return "C08/" + family + "/" + subject + "/" + kind }
-
-// panicKind classifies a recovered panic value into a short stable word.
-func panicKind(o outcome) string {
-	s := o.panicMsg()
-	if _, ok := o.panicked.(noProgress); ok {
-		return "unbounded-recursion-on-exhausted-input"
-	}
-	switch {
-	case strings.Contains(s, "makeslice") || strings.Contains(s, "makemap") || strings.Contains(s, "out of memory") || strings.Contains(s, "slice bounds out of range"):
-		// make([]T, n) / s[:n] with an n taken from the input: one defect class together with "unbounded-alloc"
-		return "unchecked-length"
-	case strings.Contains(s, "index out of range"):
-		return "index-out-of-range"
-	case strings.Contains(s, "nil pointer dereference") || strings.Contains(s, "nil map"):
-		return "nil-dereference"
-	default:
-		return "other"
-	}
-}
-
-// failPanic reports a panic; the signature names the function that panicked (one defect, one signature,
-// whatever container was being decoded).
-func (x *lc) failPanic(family string, o outcome, what string) {
-	k := "panic:" + panicKind(o)
-	if panicKind(o) == "unchecked-length" {
-		k = "unchecked-length"
-	}
-	x.c.Fail(sig(family, o.site, k), "%s %s: panic in %s: %s", x.e.name, what, o.site, o.panicMsg())
-}
-
-// firstDiffAt describes where two byte strings differ.
-func firstDiffAt(a, b []byte) string {
-	n := len(a)
-	if len(b) < n {
-		n = len(b)
-	}
-	for i := 0; i < n; i++ {
-		if a[i] != b[i] {
-			return fmt.Sprintf("first difference at byte %d (0x%02x vs 0x%02x), lengths %d vs %d", i, a[i], b[i], len(a), len(b))
-		}
-	}
-	return fmt.Sprintf("common prefix of %d bytes, lengths %d vs %d", n, len(a), len(b))
-}
-
-// judgement of a receiver after a decode that returned no error
-type verdict struct {
-	kind    string // "" = fine
-	msg     string
-	subject string // blamed type (deepest serializable component on the path to the difference), "" = the type under test
-}
-
-func pathString(p []step) string {
-	s := ""
-	for i, st := range p {
-		if i > 0 && !strings.HasPrefix(st.name, "[") {
-			s += "."
-		}
-		s += st.name
-	}
-	if s == "" {
-		s = "(value)"
-	}
-	return s
-}
-
-var (
-	readerFromT  = reflect.TypeOf((*io.ReaderFrom)(nil)).Elem()
-	jsonUnmarshT = reflect.TypeOf((*json.Unmarshaler)(nil)).Elem()
-)
-
-// blame finds the deepest component on the path that has its own decoder: the stale/mis-decoded field is
-// then reported against that component type, so that a defect of rlwe.MetaData is one signature and not one
-// per container.
-func blame(top reflect.Type, p []step) (subject string, rel string) {
-	last := -1
-	for i, st := range p {
-		pt := reflect.PtrTo(st.t)
-		if st.t.Kind() == reflect.Ptr {
-			pt = st.t
-		}
-		if pt.Implements(readerFromT) || pt.Implements(jsonUnmarshT) {
-			last = i
-		}
-	}
-	if last < 0 {
-		return baseName(top), pathString(p)
-	}
-	t := p[last].t
-	if t.Kind() == reflect.Ptr {
-		t = t.Elem()
-	}
-	return baseName(t), pathString(p[last+1:])
-}
-
-// judge compares the decoded receiver with the original: equal (own Equal or structural), re-marshals to
-// the reference bytes, announces the same size, and (where a count is returned) consumed exactly the encoding.
-func (x *lc) judge(d decoder, recv any, n int64) verdict {
-	ref, _ := x.o.ref(d)
-	top := reflect.TypeOf(recv).Elem()
-	if d.hasN && n != int64(len(ref)) {
-		return verdict{kind: "wrong-count", msg: fmt.Sprintf("returned n=%d for an encoding of %d bytes", n, len(ref))}
-	}
-	seq, path := diff(reflect.ValueOf(x.o.obj).Elem(), reflect.ValueOf(recv).Elem(), nil)
-	var eq bool
-	var how string
-	if x.e.eq != nil {
-		eq, how = x.e.eq(x.o.obj, recv), "catalogue equality"
-	} else {
-		eq, how = objEqual(x.o.obj, recv)
-	}
-	if !eq {
-		v := verdict{kind: "not-equal", msg: "decoded object differs from the original (" + how + ")"}
-		if !seq {
-			sub, rel := blame(top, path)
-			v.subject, v.kind = sub, "differs:"+rel
-			v.msg += " at " + pathString(path)
-		}
-		return v
-	}
-	ra := apiOf(recv)
-	var b []byte
-	var o outcome
-	var ok bool
-	b, o, ok = encodeFor(d, ra)
-	if !ok {
-		if o.panicked != nil {
-			return verdict{kind: "remarshal-panics", msg: fmt.Sprintf("re-marshalling the decoded object panicked in %s: %s", o.site, o.panicMsg())}
-		}
-		return verdict{kind: "remarshal-fails", msg: fmt.Sprintf("re-marshalling the decoded object failed: %v", o.err)}
-	}
-	if !bytes.Equal(b, ref) {
-		v := verdict{kind: "remarshal-differs", msg: "decoded object is Equal to the original but encodes differently: " + firstDiffAt(ref, b)}
-		if !seq {
-			sub, rel := blame(top, path)
-			v.subject, v.kind = sub, "differs:"+rel
-			v.msg += "; structural difference at " + pathString(path)
-		}
-		return v
-	}
-	if !d.json && ra.sizer != nil {
-		var sz int
-		if o := guard(func() error { sz = ra.sizer.BinarySize(); return nil }); o.panicked != nil || sz != len(ref) {
-			return verdict{kind: "binarysize-differs", msg: fmt.Sprintf("BinarySize of the decoded object = %d, encoding has %d bytes", sz, len(ref))}
-		}
-	}
-	return verdict{}
-}
-
-// decodeFresh decodes data into a new zero value with d.
-func (x *lc) decodeInto(d decoder, recv any, data []byte) (n int64, o outcome) {
-	a := apiOf(recv)
-	o = guard(func() (err error) { n, err = d.run(a, data); return })
-	return
-}
-
-// decodeFault is decodeInto for damaged input. UnmarshalBinary hands the bytes to a buffer.Buffer it creates
-// itself; the same bytes are first decoded through ReadFrom on a watchReader (identical reader behaviour,
-// identical library code path) and the real UnmarshalBinary is only called when that terminated: a decoder
-// that never terminates would take the whole process down with a stack overflow.
-func (x *lc) decodeFault(d decoder, recv any, data []byte) (n int64, o outcome) {
-	a := apiOf(recv)
-	// (only where UnmarshalBinary and ReadFrom speak the same format, i.e. MarshalBinary == WriteTo bytes)
-	if d.name == "UnmarshalBinary" && a.rf != nil && x.o.binOK && x.o.wbinOK && bytes.Equal(x.o.bin, x.o.wbin) {
-		probe := freshLike(recv)
-		o = guard(func() (err error) {
-			_, err = probe.(io.ReaderFrom).ReadFrom(&watchReader{b: buffer.NewBuffer(data)})
-			return
-		})
-		if _, tripped := o.panicked.(noProgress); tripped {
-			return 0, o
-		}
-	}
-	return x.decodeInto(d, recv, data)
-}
-
-// roundtrip: reference bytes into a fresh zero value. Returns "" when fine; otherwise the failure has been
-// reported under family "roundtrip" (the same signature from whatever family noticed it).
-func (x *lc) roundtrip(d decoder) bool { return x.roundtripR(d, true) }
-
-// baseline is roundtrip for leaves whose subject is something else: a broken plain round trip is reported
-// once, by the fresh-receiver leaf of the receiver family; here the leaf is only marked out of scope.
-func (x *lc) baseline(d decoder) bool {
-	if x.roundtripR(d, false) {
-		return true
-	}
-	x.c.Skip("plain round trip already fails (reported by the receiver family, fresh receiver)")
-	return false
-}
-
-func (x *lc) roundtripR(d decoder, report bool) bool {
-	ref, ok := x.o.ref(d)
-	if !ok {
-		return false // reported by the entry-point family
-	}
-	if !report {
-		recv := freshLike(x.o.obj)
-		n, o := x.decodeInto(d, recv, ref)
-		return o.panicked == nil && o.err == nil && x.judge(d, recv, n).kind == ""
-	}
-	recv := freshLike(x.o.obj)
-	n, o := x.decodeInto(d, recv, ref)
-	subj := x.e.name + "." + d.method
-	switch {
-	case o.panicked != nil:
-		x.failPanic("roundtrip", o, d.name+" of its own encoding")
-	case o.err != nil:
-		x.c.Fail(sig("roundtrip", subj, "error"), "%s: %s of the object's own encoding into a fresh value failed: %v", x.e.name, d.name, o.err)
-	default:
-		v := x.judge(d, recv, n)
-		if v.kind == "" {
-			return true
-		}
-		if v.subject != "" {
-			subj = v.subject
-		}
-		x.c.Fail(sig("roundtrip", subj, v.kind), "%s [%s] via %s into a fresh value: %s", x.e.name, x.e.vals[x.vi].label, d.name, v.msg)
-	}
-	return false
-}
-
-// encodeFor re-marshals with the writer that pairs with the decoder: WriteTo for ReadFrom, MarshalBinary for
-// UnmarshalBinary, json.Marshal for JSON.
-func encodeFor(d decoder, a api) (b []byte, o outcome, ok bool) {
-	switch {
-	case d.json:
-		return encodeJSON(a)
-	case d.method == "ReadFrom" && a.wt != nil:
-		var buf bytes.Buffer
-		o = guard(func() (err error) { _, err = a.wt.WriteTo(&buf); return })
-		return buf.Bytes(), o, o.err == nil && o.panicked == nil
-	}
-	return encodeBinary(a)
-}
-
-func availDecoders(a api) []decoder {
-	var r []decoder
-	for _, d := range decoders {
-		if d.avail(a) {
-			r = append(r, d)
-		}
-	}
-	return r
-}
 
 // ---------------------------------------------------------------------------------------------
 // family 1: entry points
@@ -345,15 +73,29 @@ var writerKinds = []writerKind{
 	})},
 }
 
+// writerClass: plain writers must have received everything when WriteTo returns (the library wraps and
+// flushes them); the others are buffer.Writers handed in by the caller.
+func writerClass(name string) string {
+	switch {
+	case strings.Contains(name, "bytes.Buffer") || strings.Contains(name, "io.Writer"):
+		return "plain-writer"
+	case strings.Contains(name, "bufio"):
+		return "bufio.Writer"
+	case strings.Contains(name, "buffer.Buffer"):
+		return "buffer.Buffer"
+	}
+	return name
+}
+
 func famEntryPoints(x *lc) {
 	a := x.o.a
-	subjBase := x.e.name
+	tn := x.e.name
 	// the reference encoding itself
 	if x.o.hasBin && !x.o.binOK {
 		if x.o.binOut.panicked != nil {
 			x.failPanic("entrypoints", x.o.binOut, "MarshalBinary")
 		} else {
-			x.c.Fail(sig("entrypoints", subjBase+".MarshalBinary", "error"), "%s [%s]: marshalling a valid object failed: %v", x.e.name, x.e.vals[x.vi].label, x.o.binOut.err)
+			x.c.Fail(sig("entrypoints", tn+".MarshalBinary", "error"), "%s [%s]: marshalling a valid object failed: %v", tn, x.label(), x.o.binOut.err)
 		}
 		return
 	}
@@ -361,12 +103,11 @@ func famEntryPoints(x *lc) {
 		if x.o.jsOut.panicked != nil {
 			x.failPanic("entrypoints", x.o.jsOut, "json.Marshal")
 		} else {
-			x.c.Fail(sig("entrypoints", subjBase+".MarshalJSON", "error"), "%s [%s]: json.Marshal of a valid object failed: %v", x.e.name, x.e.vals[x.vi].label, x.o.jsOut.err)
+			x.c.Fail(sig("entrypoints", tn+".MarshalJSON", "error"), "%s [%s]: json.Marshal of a valid object failed: %v", tn, x.label(), x.o.jsOut.err)
 		}
 		return
 	}
-	nk := len(writerKinds) + 2
-	k := x.c.Choose(nk, "entry-point")
+	k := x.c.Choose(len(writerKinds)+2, "entry-point")
 	switch {
 	case k == len(writerKinds): // BinarySize
 		x.c.Cover("writer", "BinarySize")
@@ -378,22 +119,15 @@ func famEntryPoints(x *lc) {
 		o := guard(func() error { sz = a.sizer.BinarySize(); return nil })
 		if o.panicked != nil {
 			x.failPanic("entrypoints", o, "BinarySize")
-		} else if sz != len(x.o.bin) {
-			x.c.Fail(sig("entrypoints", subjBase+".BinarySize", "wrong-size"), "%s [%s]: BinarySize()=%d but the encoding has %d bytes", x.e.name, x.e.vals[x.vi].label, sz, len(x.o.bin))
+		} else if sz != len(x.o.wbin) {
+			// measured against what WriteTo writes ("will write exactly object.BinarySize() bytes")
+			x.c.Fail(sig("entrypoints", declName(x.o.obj, "BinarySize"), "wrong-size"), "%s [%s]: BinarySize()=%d but WriteTo writes %d bytes (MarshalBinary returns %d)", tn, x.label(), sz, len(x.o.wbin), len(x.o.bin))
 		}
-		x.c.Outcome(x.name, "BinarySize", sz == len(x.o.bin))
+		x.c.Outcome(x.name, "BinarySize", sz == len(x.o.wbin))
 		return
-	case k == len(writerKinds)+1: // JSON determinism + MarshalJSON agrees with json.Marshal
+	case k == len(writerKinds)+1: // JSON
 		x.c.Cover("writer", "json")
-		if !x.o.hasJSON {
-			x.c.Skip("no JSON")
-			return
-		}
-		b2, o, ok := encodeJSON(a)
-		if !ok || !bytes.Equal(b2, x.o.js) {
-			x.c.Fail(sig("entrypoints", subjBase+".MarshalJSON", "not-deterministic"), "%s: two json.Marshal calls differ (%v): %s", x.e.name, o.err, firstDiffAt(x.o.js, b2))
-		}
-		x.c.Outcome(x.name, "json", len(x.o.js))
+		famEntryJSON(x)
 		return
 	}
 	wk := writerKinds[k]
@@ -403,90 +137,133 @@ func famEntryPoints(x *lc) {
 		return
 	}
 	got, n, hasN, o := wk.run(x)
-	subj := subjBase + ".WriteTo"
+	subj := tn + ".WriteTo"
 	if k == 0 {
-		subj = subjBase + ".MarshalBinary"
+		subj = tn + ".MarshalBinary"
 	}
 	switch {
 	case o.panicked != nil:
 		x.failPanic("entrypoints", o, wk.name)
 	case o.err != nil:
-		x.c.Fail(sig("entrypoints", subj, "error:"+wk.name), "%s [%s]: %s failed on a healthy writer: %v", x.e.name, x.e.vals[x.vi].label, wk.name, o.err)
+		x.c.Fail(sig("entrypoints", subj, "error:"+writerClass(wk.name)), "%s [%s]: %s failed on a healthy writer: %v", tn, x.label(), wk.name, o.err)
 	case !bytes.Equal(got, x.o.bin):
-		x.c.Fail(sig("entrypoints", subj, "bytes-differ:"+wk.name), "%s [%s]: bytes through %s differ from MarshalBinary: %s", x.e.name, x.e.vals[x.vi].label, wk.name, firstDiffAt(x.o.bin, got))
+		x.c.Fail(sig("entrypoints", subj, "bytes-differ:"+writerClass(wk.name)), "%s [%s]: bytes through %s differ from MarshalBinary: %s", tn, x.label(), wk.name, firstDiffAt(x.o.bin, got))
 	case hasN && n != int64(len(x.o.bin)):
-		x.c.Fail(sig("entrypoints", subj, "wrong-count"), "%s [%s]: %s returned n=%d, wrote %d bytes", x.e.name, x.e.vals[x.vi].label, wk.name, n, len(got))
+		x.c.Fail(sig("entrypoints", subj, "wrong-count"), "%s [%s]: %s returned n=%d, wrote %d bytes", tn, x.label(), wk.name, n, len(got))
 	}
 	x.c.Outcome(x.name, wk.name, len(got), o.err == nil)
+}
+
+// famEntryJSON: JSON entry point. Types that declare JSON methods: json.Marshal is deterministic (the round
+// trips are family 2's). Types that only inherit them from an embedded field (rlwe.Element and everything
+// embedding it inherit *MetaData's): json.Marshal/json.Unmarshal compile and run for them, so the round trip
+// is judged here, once, under the name of the embedding type.
+func famEntryJSON(x *lc) {
+	a := x.o.a
+	tn := x.e.name
+	if x.o.hasJSON {
+		b2, o, ok := encodeJSON(a)
+		if !ok || !bytes.Equal(b2, x.o.js) {
+			x.c.Fail(sig("entrypoints", tn+".MarshalJSON", "not-deterministic"), "%s: two json.Marshal calls differ (%v): %s", tn, o.err, firstDiffAt(x.o.js, b2))
+		}
+		x.c.Outcome(x.name, "json", len(x.o.js))
+		return
+	}
+	if a.jm == nil && a.ju == nil {
+		x.c.Skip("no JSON")
+		return
+	}
+	x.c.Cover("writer", "json-promoted")
+	subj := embedderName(x.o.obj, "MarshalJSON") + ".MarshalJSON"
+	var js []byte
+	o := guard(func() (err error) { js, err = json.Marshal(x.o.obj); return })
+	recv := freshLike(x.o.obj)
+	if o.err == nil && o.panicked == nil {
+		o = guard(func() error { return json.Unmarshal(js, recv) })
+	}
+	what := ""
+	switch {
+	case o.panicked != nil:
+		what = fmt.Sprintf("panic in %s: %s", o.site, o.panicMsg())
+	case o.err != nil:
+		what = "error: " + o.err.Error()
+	default:
+		if eq, how := x.equalObjects(x.o.obj, recv); !eq {
+			what = "the decoded object differs from the original (" + how + "); JSON was " + string(js[:min(len(js), 120)])
+		}
+	}
+	if what != "" {
+		x.c.Fail(sig("entrypoints", subj, "json-promoted-from-embedded-field"), "%s [%s] satisfies json.Marshaler/json.Unmarshaler only through an embedded field, and json.Marshal + json.Unmarshal into a new object do not round-trip: %s", tn, x.label(), what)
+	}
+	x.c.Outcome(x.name, "json-promoted", what == "")
 }
 
 // ---------------------------------------------------------------------------------------------
 // family 2: receiver history
 
+var historyKinds = []string{"fresh", "constructed-other", "decoded-other"}
+
 func famReceiver(x *lc) {
-	ds := availDecoders(x.o.a)
+	ds := availDecoders(x.o)
 	if len(ds) == 0 {
 		x.c.Skip("no decoder")
 		return
 	}
 	d := ds[x.c.Choose(len(ds), "decoder")]
-	nv := len(x.e.vals)
-	h := x.c.Choose(1+2*nv, "receiver-history") // 0 fresh; 1+2j constructed as value j; 2+2j zero value that decoded value j
+	h := x.c.Choose(len(historyKinds), "receiver-history")
 	x.c.Cover("decoder", d.name)
+	x.c.Cover("history", historyKinds[h])
 	ref, ok := x.o.ref(d)
 	if !ok {
 		x.c.Skip("no reference encoding (reported by entrypoints)")
 		return
 	}
 	if h == 0 {
-		x.c.Cover("history", "fresh")
-		x.c.Outcome(x.name, d.name, "fresh", x.roundtrip(d))
+		x.c.Outcome(x.name, d.name, "fresh", x.roundtrip(d, true))
 		return
 	}
 	if !x.baseline(d) {
 		return // a dirty receiver cannot be judged separately from a broken plain round trip
 	}
-	j := (h - 1) / 2
-	var recv any
-	how := "constructed as"
-	if (h-1)%2 == 0 {
-		x.c.Cover("history", "constructed-other")
-		recv = build(x.c.Seed, x.e, j)
-	} else {
-		x.c.Cover("history", "decoded-other")
-		how = "decoded"
-		oj := original(x.c.Seed, x.e, j)
-		refj, okj := oj.ref(d)
-		if !okj {
-			x.c.Skip("previous value has no encoding")
-			return
-		}
-		recv = freshLike(x.o.obj)
-		if _, o := x.decodeInto(d, recv, refj); o.err != nil || o.panicked != nil {
-			x.c.Skip("previous value does not decode (reported by its own scenario)")
-			return
-		}
-	}
-	if j == x.vi {
-		x.c.Cover("history", "same-value")
-	}
-	n, o := x.decodeInto(d, recv, ref)
-	subj := x.e.name + "." + d.method
-	prev := fmt.Sprintf("receiver previously %s [%s]", how, x.e.vals[j].label)
-	switch {
-	case o.panicked != nil:
-		x.failPanic("receiver", o, d.name+" into a used receiver")
-	case o.err != nil:
-		x.c.Fail(sig("receiver", subj, "error"), "%s [%s] via %s, %s: %v", x.e.name, x.e.vals[x.vi].label, d.name, prev, o.err)
-	default:
-		if v := x.judge(d, recv, n); v.kind != "" {
-			if v.subject != "" {
-				subj = v.subject
+	// every catalogue value of the type (the same one included) as the receiver's previous content
+	bad := 0
+	for j := range x.e.vals {
+		var recv any
+		how := "constructed as"
+		if h == 1 {
+			recv = build(x.seed, x.e, j)
+		} else {
+			how = "having decoded"
+			refj, okj := original(x.seed, x.e, j).ref(d)
+			if !okj {
+				continue
 			}
-			x.c.Fail(sig("receiver", subj, v.kind), "%s [%s] via %s, %s: %s", x.e.name, x.e.vals[x.vi].label, d.name, prev, v.msg)
+			recv = freshLike(x.o.obj)
+			if _, o := x.decodeInto(d, recv, refj); o.err != nil || o.panicked != nil {
+				continue // value j does not decode: reported by its own scenario
+			}
+		}
+		if j == x.vi {
+			x.c.Cover("history", "same-value")
+		}
+		n, o := x.decodeInto(d, recv, ref)
+		prev := fmt.Sprintf("receiver previously %s [%s]", how, x.e.vals[j].label)
+		switch {
+		case o.panicked != nil:
+			bad++
+			x.failPanic("receiver", o, d.name+" into a used receiver ("+prev+")")
+		case o.err != nil:
+			bad++
+			x.c.Fail(sig("receiver", x.e.name+"."+d.method, "error"), "%s [%s] via %s, %s: %v", x.e.name, x.label(), d.name, prev, o.err)
+		default:
+			if v := x.judge(d, recv, n); v.kind != "" {
+				bad++
+				x.c.Fail(sig("receiver", x.subjectFor(d, v), v.kind), "%s [%s] via %s, %s: %s", x.e.name, x.label(), d.name, prev, v.msg)
+			}
 		}
 	}
-	x.c.Outcome(x.name, d.name, h, o.err == nil)
+	x.c.Count(len(x.e.vals))
+	x.c.Outcome(x.name, d.name, h, bad)
 }
 
 // ---------------------------------------------------------------------------------------------
@@ -518,7 +295,11 @@ var streamReaders = []streamReader{
 func streamPartners(cat []*entry, tier string, self *entry) (r [][2]int) {
 	for ei, e := range cat {
 		for vi := range e.vals {
-			if tier == "thorough" || e == self || vi == representative(e) {
+			switch {
+			case tier == "thorough" || e == self:
+				r = append(r, [2]int{ei, vi})
+			case vi == representative(e) && !(self.heavy && tier == "quick" && ei%8 != 0):
+				// (decoding a parameter set costs 10+ ms: in the quick tier it is followed by every 8th type only)
 				r = append(r, [2]int{ei, vi})
 			}
 		}
@@ -536,21 +317,21 @@ func representative(e *entry) int {
 	return 0
 }
 
+func streamable(o *cached) bool {
+	return o.a.rf != nil && o.a.wt != nil && o.binOK && o.wbinOK && bytes.Equal(o.bin, o.wbin)
+}
+
 func famStream(x *lc) {
-	if x.o.a.rf == nil || x.o.a.wt == nil || !x.o.binOK {
-		x.c.Skip("type has no WriteTo/ReadFrom pair")
-		return
-	}
-	if !x.o.wbinOK || !bytes.Equal(x.o.bin, x.o.wbin) {
-		x.c.Skip("WriteTo and MarshalBinary disagree (reported by entrypoints)")
+	if !streamable(x.o) {
+		x.c.Skip("type has no consistent WriteTo/ReadFrom pair (inconsistencies are reported by entrypoints)")
 		return
 	}
 	partners := streamPartners(x.cat, x.c.Tier, x.e)
 	pi := x.c.Choose(len(partners), "second-object")
 	sr := streamReaders[x.c.Choose(len(streamReaders), "shared-reader")]
 	be := x.cat[partners[pi][0]]
-	bo := original(x.c.Seed, be, partners[pi][1])
-	if bo.a.rf == nil || bo.a.wt == nil || !bo.binOK || !bo.wbinOK || !bytes.Equal(bo.bin, bo.wbin) {
+	bo := original(x.seed, be, partners[pi][1])
+	if !streamable(bo) {
 		x.c.Skip("second object has no consistent WriteTo/ReadFrom pair")
 		return
 	}
@@ -565,14 +346,14 @@ func famStream(x *lc) {
 		var n int64
 		out := guard(func() (err error) { n, err = o.a.wt.WriteTo(bw); return })
 		if out.err != nil || out.panicked != nil || n != int64(len(o.bin)) {
-			x.c.Fail(sig("stream", ents[i].name+".WriteTo", "shared-writer"), "writing object %d (%s) to a shared bufio.Writer: n=%d err=%v panic=%v", i, ents[i].name, n, out.err, out.panicked)
+			x.c.Fail(sig("stream", declName(o.obj, "WriteTo"), "shared-writer"), "writing object %d (%s) to a shared bufio.Writer: n=%d err=%v panic=%v", i, ents[i].name, n, out.err, out.panicked)
 			return
 		}
 	}
 	_ = bw.Flush()
 	want := append(append(append([]byte(nil), x.o.bin...), bo.bin...), x.o.bin...)
 	if !bytes.Equal(stream.Bytes(), want) {
-		x.c.Fail(sig("stream", x.e.name+".WriteTo", "shared-writer-bytes"), "A|B|A written through one bufio.Writer differs from the concatenated encodings: %s", firstDiffAt(want, stream.Bytes()))
+		x.c.Fail(sig("stream", declName(x.o.obj, "WriteTo"), "shared-writer-bytes"), "A|B|A written through one bufio.Writer differs from the concatenated encodings: %s", firstDiffAt(want, stream.Bytes()))
 		return
 	}
 	r, consumed := sr.mk(want)
@@ -581,8 +362,8 @@ func famStream(x *lc) {
 		recv := freshLike(o.obj)
 		var n int64
 		out := guard(func() (err error) { n, err = recv.(io.ReaderFrom).ReadFrom(r); return })
-		subj := ents[i].name + ".ReadFrom"
-		where := fmt.Sprintf("object %d of stream %s|%s|%s at offset %d through one %s", i, x.e.name, be.name, x.e.name, pos, sr.name)
+		subj := declName(o.obj, "ReadFrom")
+		where := fmt.Sprintf("object %d of stream %s|%s|%s (object bytes %d..%d) through one %s", i, x.e.name, be.name, x.e.name, pos, pos+len(o.bin), sr.name)
 		if out.panicked != nil {
 			x.failPanic("stream", out, where)
 			return
@@ -600,8 +381,7 @@ func famStream(x *lc) {
 			x.c.Fail(sig("stream", subj, "cursor"), "%s: reader cursor at %d, expected %d", where, got, pos)
 			return
 		}
-		y := &lc{c: x.c, cat: x.cat, e: ents[i], o: o}
-		if v := y.judge(decoders[1], recv, n); v.kind != "" {
+		if v := judgeAgainst(ents[i], o.obj, o.wbin, decoders[1], recv, n); v.kind != "" {
 			if v.subject != "" {
 				subj = v.subject
 			}
@@ -619,114 +399,10 @@ func famStream(x *lc) {
 	if out.panicked != nil {
 		x.failPanic("stream", out, "first object from a plain io.Reader")
 	} else if out.err != nil || n != int64(len(x.o.bin)) {
-		x.c.Fail(sig("stream", x.e.name+".ReadFrom", "plain-reader-count"), "first object of %s|%s from a plain io.Reader: n=%d (want %d) err=%v", x.e.name, be.name, n, len(x.o.bin), out.err)
+		x.c.Fail(sig("stream", declName(x.o.obj, "ReadFrom"), "plain-reader-count"), "first object of %s|%s from a plain io.Reader: n=%d (want %d) err=%v", x.e.name, be.name, n, len(x.o.bin), out.err)
 	}
 	x.c.Count(4)
 	x.c.Outcome(x.name, be.name, partners[pi][1], sr.name, len(want))
 }
 
-// ---------------------------------------------------------------------------------------------
-// family 4: fragmentation
-
-var bufSizes = []int{0, 16, 17, 100, 4096} // 0: the chunk reader is handed to ReadFrom directly (a plain io.Reader)
-
-func chunkings(n int, tier string) []chunking {
-	cs := []chunking{
-		{name: "full", zeroAt: -1},
-		{name: "1", size: 1, zeroAt: -1},
-		{name: "2", size: 2, zeroAt: -1},
-		{name: "7", size: 7, zeroAt: -1},
-		{name: "halves", halves: true, zeroAt: -1},
-		{name: "full+EOF", eofWithData: true, zeroAt: -1},
-		{name: "1+EOF", size: 1, eofWithData: true, zeroAt: -1},
-		{name: "7+EOF", size: 7, eofWithData: true, zeroAt: -1},
-	}
-	var zs []int
-	if n <= 256 || tier == "thorough" && n <= 2048 {
-		for i := 0; i < n; i++ {
-			zs = append(zs, i)
-		}
-	} else {
-		zs = []int{0, 1, 8, 9, n / 2, n - 1}
-	}
-	for _, z := range zs {
-		cs = append(cs, chunking{name: "zero-nil", zeroAt: z})
-	}
-	return cs
-}
-
-func (x *lc) fragRun(bufSize int, ch chunking) (verdict, outcome) {
-	cr := newChunkReader(x.o.wbin, ch)
-	var r io.Reader = cr
-	if bufSize > 0 {
-		r = bufio.NewReaderSize(cr, bufSize)
-	}
-	recv := freshLike(x.o.obj)
-	var n int64
-	o := guard(func() (err error) { n, err = recv.(io.ReaderFrom).ReadFrom(r); return })
-	if o.panicked != nil || o.err != nil {
-		return verdict{kind: "error"}, o
-	}
-	return x.judge(decoders[1], recv, n), o
-}
-
-func bufName(b int) string {
-	if b == 0 {
-		return "direct"
-	}
-	return fmt.Sprintf("bufio=%d", b)
-}
-
-func famFragmentation(x *lc) {
-	if x.o.a.rf == nil || !x.o.wbinOK {
-		x.c.Skip("type has no ReadFrom")
-		return
-	}
-	chs := chunkings(len(x.o.wbin), x.c.Tier)
-	bs := bufSizes[x.c.Choose(len(bufSizes), "reader-buffer")]
-	ch := chs[x.c.Choose(len(chs), "chunking")]
-	x.c.Cover("frag-buffer", bufName(bs))
-	x.c.Cover("frag-chunks", ch.class())
-	if !x.baseline(decoders[1]) {
-		return
-	}
-	run := func(bs int, ch chunking) result {
-		return runJob(fragJob(x, bs, ch))
-	}
-	bad := func(r result) bool { return !r.ok() || r.VKind != "" }
-	r := run(bs, ch)
-	x.c.Outcome(x.name, bs, ch.name, ch.zeroAt, r.VKind, r.Err != "", r.Panic != "", r.Fatal)
-	if !bad(r) {
-		return
-	}
-	// Diagnose which part of the environment matters, so that one defect has one signature:
-	// the buffer size alone (whole data available at once), the chunking alone (default-size buffer), or both.
-	env := ""
-	full := chunking{name: "full", zeroAt: -1}
-	switch {
-	case ch.class() == "full":
-		env = bufName(bs)
-	case bs == 0 || bs == 4096:
-		env = ch.class()
-	default:
-		if bad(run(bs, full)) {
-			env = bufName(bs)
-		} else if bad(run(4096, ch)) {
-			env = ch.class()
-		} else {
-			env = bufName(bs) + "+" + ch.class()
-		}
-	}
-	what := r.VMsg
-	switch {
-	case r.Fatal != "":
-		what = fmt.Sprintf("PROCESS KILLED: fatal error: %s in %s", r.Fatal, r.FatalSite)
-		x.c.Cover("frag-result", "fatal")
-	case r.Panic != "": // a panic here is a symptom of the environment (mis-framed stream), classified like an error
-		what = fmt.Sprintf("panic in %s: %s", r.Site, r.Panic)
-	case r.Err != "":
-		what = "error: " + r.Err
-	}
-	x.c.Fail(sig("fragmentation", declName(x.o.obj, "ReadFrom"), env), "%s [%s] (%d valid bytes) read through %s with chunking %s (zero-read at %d): %s",
-		x.e.name, x.e.vals[x.vi].label, len(x.o.wbin), bufName(bs), ch.name, ch.zeroAt, what)
-}
+var _ = reflect.TypeOf
